@@ -48,6 +48,9 @@ GROUPS = ('mass', 'density', 'neutron', 'xray', 'emission', 'covrad', 'crystal',
 LAZY = ('neutron', 'xray', 'emission', 'covrad', 'crystal', 'magff', 'activation')
 TABLES = ('T1', 'T2')
 INIT_PREREQ = {'density': ('mass',), 'activation': ('mass',), 'neutron': ('mass', 'density')}
+# groups whose loader needs another group of the same table first: called too early the loader refuses (an
+# exception the caller catches) - and must leave the table in a state from which the right order still works
+PREMATURE = ('neutron', 'activation')
 DIGEST_PREREQ = {'density': ('mass',), 'activation': ('mass',), 'neutron': ('mass', 'density'),
                  'xray': ('mass', 'density')}
 DEPENDENTS = {'mass': ('density', 'neutron', 'xray'), 'density': ('neutron', 'xray')}
@@ -577,6 +580,7 @@ def all_event_names():
     ev = ['new:T1', 'new:T2'] + pub_events()
     for T in TABLES:
         ev += ['init:%s:%s' % (T, g) for g in GROUPS]
+        ev += ['init0:%s:%s' % (T, g) for g in PREMATURE]
         ev += ['read:%s:%s:%s' % (T, g, r) for g in READS for r in READS[g]]
         ev += ['digest:%s:%s' % (T, g) for g in GROUPS]
         ev += ['mut:%s:%s:%s' % (T, g, v) for g in MUTATIONS for v in MUTATIONS[g]]
@@ -951,6 +955,8 @@ class Env(object):
         have = self.inited[T]
         if k == 'init':
             return p[2] in GROUPS and p[2] not in have and all(q in have for q in INIT_PREREQ.get(p[2], ()))
+        if k == 'init0':
+            return p[2] in PREMATURE and p[2] not in have and not all(q in have for q in INIT_PREREQ.get(p[2], ()))
         if k == 'read':
             return p[2] in READS and p[3] in READS[p[2]]
         if k == 'digest':
@@ -1080,6 +1086,24 @@ class Env(object):
                                symptom='derived-differs', entries=[('Fe', '_number_density', got, want)], item='derived')
         if any(q in self.mutated[T] for q in set(INIT_PREREQ.get(g, ())) | set(DIGEST_PREREQ.get(g, ()))):
             self.mutated[T].add(g)      # derived from mutated prerequisites: not comparable
+
+    def _ev_init0(self, p, pend):
+        """module.init(T) before the groups it needs: the loader may refuse (the caller catches the exception).  Whatever it
+        does, the documented order - prerequisites, then this loader - must afterwards give a complete table; the
+        digest after the later init:<T>:<g> event decides."""
+        import importlib
+        T, g = p[1], p[2]
+        mod = importlib.import_module('periodictable.' + MODULE[g][0])
+        try:
+            getattr(mod, MODULE[g][1])(self.tables[T])
+        except Exception:
+            self.counts['premature_init.refused'] += 1
+            return
+        # accepted without its prerequisites: the group counts as initialised, its values are not comparable
+        self.counts['premature_init.accepted'] += 1
+        self.inited[T].add(g)
+        self.init_order.append((T, g))
+        self.mutated[T].add(g)
 
     def _pub_value(self, name, fn):
         self.counts['public_event_comparisons'] += 1
@@ -1624,7 +1648,8 @@ class Model(object):
         if p[0] == 'new':
             self.inited[p[1]] = []
         elif p[0] == 'init':
-            self.inited[p[1]].append(p[2])
+            if p[2] not in self.inited[p[1]]:
+                self.inited[p[1]].append(p[2])
         elif p[0].startswith('pub.'):
             self.pub_touched.update(event_groups(name))
         self.hist.append(name)
@@ -1766,6 +1791,15 @@ def systematic_histories(thorough=False):
     for kind in PICKLE_KINDS:
         out.append(('pickle:%s' % kind, base + ['new:T2', 'init:T2:mass', 'pickle:T1:%s' % kind, 'pickle:T2:%s' % kind]))
     out.append(('pickle-bare', ['new:T1', 'pickle:T1:el', 'pickle:T1:ion', 'pickle:T1:kept']))
+    # a loader called too early (refused), then the documented order
+    for g in PREMATURE:
+        needs = list(INIT_PREREQ[g])
+        for k in range(len(needs)):
+            h = ['new:T1'] + ['init:T1:%s' % q for q in needs[:k]] + ['init0:T1:%s' % g] + \
+                ['init:T1:%s' % q for q in needs[k:]] + ['init:T1:%s' % g, 'digest:T1:%s' % g]
+            out.append(('premature-init:%s:%d' % (g, k), h))
+            if g in READS:
+                out.append(('premature-init-after-public:%s:%d' % (g, k), ['pub.read:%s:%s' % (g, list(READS[g])[0])] + h))
     if thorough:
         # ordered pairs over {init(T1) g, first public touch of g'} and triples with a second table
         for g1 in LAZY:
